@@ -906,6 +906,10 @@ def act_case(mon, rng, c, mix):
         if k > 0:
             bars += 1
     mon.hit("bars", bars)
+    for a in act.actions:
+        nm = type(a).__name__
+        if nm in ("LiquidationAction", "ReduceDebtAction", "DeliverAction", "ExpiredAction"):
+            mon.hit(f"bar-loop-event/{a.market.type.name}/{nm}")
     # ---- the list and the data frame
     lst = act.account_status
     if crashed is None:
